@@ -18,11 +18,13 @@ func init() {
 		Title: "Every accepted metric reaches exactly the matching routes and destinations",
 		Decided: "R1 in Table.Dispatch and DispatchAggregate, Route.Dispatch is called once per element of the one loaded snapshot's route list, on the element whose Match returned true and on no other, and the loop has no early exit; " +
 			"R2 SendAllMatch sends to every destination whose Match is true (no early exit), SendFirstMatch leaves the loop after the first send and sends nothing before a match, ConsistentHashing sends exactly once when a name is found; the command tokens and TOML type strings construct the identically named route type; " +
+			"R4 route and destination filters are evaluated on the current rewritten name and the forwarded line is the single-space join of the same fields; " +
 			"R3 every path of the Dispatcher implementation increments the inbound counter once and ends in exactly one terminal outcome (invalid, out-of-order, blacklisted, consumed by drop-raw, routed, unroutable) with the matching counters and no forwarding after a rejecting outcome.",
 		NotDecided: "that Match computes the documented predicate (C03); that a hand-off to a route or destination arrives (C05–C07); behaviour of the non-carbon route types.",
 		Rules: []RuleDef{
 			{ID: "C01.R1", Min: 6, Doc: "route fan-out: the Route.Dispatch call site lies in a range loop over the `routes` slice of the single loaded TableConfig, its receiver is the loop element, it is dominated by the true edge of Match on the same element, the loop exits only by exhaustion, and on every path each Match is followed by at most one Dispatch, only after a true result", Run: c01r1},
 			{ID: "C01.R2", Min: 9, Doc: "destination fan-out policy per route type (range loop over Dests(), send on the loop element's In guarded by that element's Match; all-match: no early exit; first-match: no path from the send back to the loop header; hashing: one send per call) and registry binding of names to constructors", Run: c01r2},
+			{ID: "C01.R4", Min: 10, Doc: "what is matched is what is forwarded: every route/destination filter is evaluated on the current (rewritten) metric name and the line handed to the routes is the single-space join of the same fields (rules C03.R1 and C04.R2 evaluated for this property as well)", Run: func(c *Check) { c03r1(c); c04r2(c) }},
 			{ID: "C01.R3", Min: 3, Doc: "terminal accounting by path enumeration of the Dispatcher implementation: numIn.Inc exactly once; exactly one terminal class per path; rejecting outcomes are followed by no AddMaybe / Route.Dispatch / send; numUnroutable only on paths without any Route.Dispatch", Run: c01r3},
 		},
 	})
